@@ -296,7 +296,7 @@ func runC13(s *sim) {
 		if g := s.parkedGates(); len(g) > 0 {
 			s.probe("validation_outlives_peer")
 			// release until nothing is parked any more (a released validation may enter the next validator)
-			for round := 0; round < 64; round++ {
+			for round := 0; round < 8192; round++ {
 				g = s.parkedGates()
 				if len(g) == 0 {
 					break
